@@ -65,6 +65,39 @@ def _k_locrange(c):
     return (0 if 5 in c['gens'] else 1), '%s/%s' % (c['tag'], '+'.join(c['which']))
 
 
+def _read_types(run, path):
+    """ApiTypes.tla: a .debug_types section of 2-3 type units whose signatures may repeat, the referring unit alone in .debug_info."""
+    for c in run.cases(path):
+        seq = ''.join('AB'[k - 1] for k in c['sigseq'])
+        yield {'tag': 'types/%s' % c['tag'], 'skey': '%s/%d-%d%s' % (seq, c['fmt'], c['asz'], 'le' if c['le'] else 'be'), 'dup': c['dup'], 'seq': seq,
+               'cls': 8 * c['asz'], 'le': c['le'], 'secs': W._secs(info=c['info'], abbrev=c['abbrev'], str=c['str'], types=c['types'])}
+
+
+def _k_types(c):
+    """Sections with a repeated signature first: the repeat apart (A B A), then adjacent copies; then the sections of unique signatures."""
+    seq = c['seq']
+    return (0 if c['dup'] else 1), '%d%s' % (0 if c['dup'] and seq[0] == seq[-1] and len(seq) == 3 and seq[1] != seq[0] else 1, c['skey'])
+
+
+def _read_frames(run, path):
+    """CFI.tla (C06) emits one call-frame section per case; a file of this source carries TWO of them - a .debug_frame and an .eh_frame of
+    one class and byte order, both as the specification wrote them (next to the wrapper's stub .debug_info) - so that the two kinds of
+    call-frame information are asked of one object.  The cases are paired in the order of their contents' digests."""
+    by = {}
+    for c in W._read_cfi(run, path):
+        if len(c['secs'][0]['b']) <= 600:
+            by.setdefault((c['cls'], c['le'], c['secs'][0]['k']), []).append(c)
+    for (cls, le, k), dbg in sorted(by.items()):
+        if k != 'frame':
+            continue
+        ehs = sorted(by.get((cls, le, 'eh_frame'), []), key=W._content)
+        dbg = sorted(dbg, key=W._content)
+        for i in range(min(len(dbg), len(ehs))):
+            d, e = dbg[i], ehs[(i * 7) % len(ehs)]
+            yield {'tag': 'frames/%d%s' % (cls, 'le' if le else 'be'), 'skey': '%d%s/%s+%s' % (cls, 'le' if le else 'be', d['tag'], e['tag']),
+                   'cls': cls, 'le': le, 'stub': True, 'machine': d['machine'], 'secs': d['secs'] + e['secs']}
+
+
 def _k_plain(c):
     return c.get('rank', 1), c.get('skey', c['tag'])
 
@@ -87,6 +120,10 @@ SOURCES = [
         (8, 40), wrap=True, klass=_k_line),
     Src('symhash', 'SymHash', {'quick': ['SymHash_tiny'], 'thorough': ['SymHash_tiny']}, W._read_symhash, (4, 16), klass=_k_plain, tlc=JVM),
     Src('notes', 'Notes', {'quick': [], 'thorough': ['ReadelfEnvelope_Notes|Notes_quick']}, W._read_notes, (0, 16), klass=_k_plain),
+    # .debug_types sections whose units' signatures come from an alphabet with repetition (this property's own writer)
+    Src('types', 'ApiTypes', {'quick': ['ApiTypes_quick'], 'thorough': ['ApiTypes_quick']}, _read_types, (4, 16), wrap=True, klass=_k_types),
+    # a .debug_frame and an .eh_frame section in one file (the CFI writer's sections, two per file)
+    Src('frames', 'CFI', {'quick': ['CFI_scan_quick'], 'thorough': ['CFI_scan_quick']}, _read_frames, (3, 12), wrap=True, klass=_k_plain, tlc=JVM),
     Src('versions', 'ReadelfEnvelopeV', {'quick': [], 'thorough': ['ReadelfEnvelopeV_quick']}, W._read_versions, (0, 0), klass=_k_plain),           # (0, 16) once the signature below is triaged
 ]
 
@@ -166,7 +203,7 @@ class Generation:
             path = os.path.join(self.run.tmp, 'c10_secs.ndjson')
             with open(path, 'w') as f:
                 for cid, c in by.items():
-                    f.write(json.dumps({'id': cid, 'tag': c['tag'], 'cls': c['cls'], 'le': c['le'], 'stub': False,
+                    f.write(json.dumps({'id': cid, 'tag': c['tag'], 'cls': c['cls'], 'le': c['le'], 'stub': c.get('stub', False),
                                         'machine': c.get('machine', W.MACHINE[(c['cls'], c['le'])]), 'secs': c['secs']}, separators=(',', ':')) + '\n')
             res = self._tlc('ReadelfEnvelope', 'ApiFiles_wrap', env={'SECS': path})
             got = {w['key']: w['chunks'] for w in W._read_parts(self.run, res.out)}
